@@ -63,6 +63,20 @@ def _own_nodes(fnode):
         stack.extend(ast.iter_child_nodes(n))
 
 
+def is_simple_generator(fnode):
+    """A generator whose every `yield` is a statement of its own (`yield E`), without `yield from` and without `return <value>`: consumed
+    at once by `<list>.extend(gen(...))` it is the same as its body with `<list>.append(E)` in place of the yields."""
+    ys = [x for x in _own_nodes(fnode) if isinstance(x, ast.Yield)]
+    if not ys or any(isinstance(x, ast.YieldFrom) for x in _own_nodes(fnode)):
+        return False
+    stmt_yields = {id(x.value) for x in _own_nodes(fnode) if isinstance(x, ast.Expr) and isinstance(x.value, ast.Yield)}
+    if any(id(y) not in stmt_yields for y in ys) or any(y.value is None for y in ys):
+        return False
+    if any(isinstance(x, ast.Return) and x.value is not None for x in _own_nodes(fnode)):
+        return False
+    return not isinstance(fnode, ast.AsyncFunctionDef)
+
+
 def eligible(fi):
     n = fi.node
     if n.name.startswith("__") and n.name.endswith("__"):
@@ -71,14 +85,18 @@ def eligible(fi):
         if unparse(d) not in ("staticmethod", "classmethod"):
             return False
     a = n.args
-    if a.vararg or a.kwarg or a.posonlyargs:
+    if a.vararg or a.posonlyargs:
         return False
+    # (a **kwargs parameter is bound to the dict of the call's surplus keywords, see Expander._bind)
     for d in list(a.defaults) + [d for d in a.kw_defaults if d is not None]:
         if not isinstance(d, ast.Constant) and not (isinstance(d, ast.UnaryOp) and isinstance(d.operand, ast.Constant)) \
                 and dotted(d) is None:
             return False
+    gen = is_simple_generator(n)
     for x in _own_nodes(n):
-        if isinstance(x, (ast.Yield, ast.YieldFrom, ast.Global, ast.Nonlocal, ast.ClassDef, ast.Lambda) + _FUNC):
+        if isinstance(x, (ast.YieldFrom, ast.Global, ast.Nonlocal, ast.ClassDef, ast.Lambda) + _FUNC):
+            return False
+        if isinstance(x, ast.Yield) and not gen:
             return False
         if isinstance(x, ast.Call) and dotted(x.func) in ("locals", "vars", "globals", "super"):
             return False
@@ -272,15 +290,24 @@ class Expander:
         for p, v in zip(params, call.args):
             values[p] = v
         kwonly = [x.arg for x in a.kwonlyargs]
+        surplus = []
         for kw in call.keywords:
-            if kw.arg in values or kw.arg not in params + kwonly:
+            if kw.arg in values:
                 raise NotInlinable("keyword")
+            if kw.arg not in params + kwonly:
+                if a.kwarg is None:
+                    raise NotInlinable("keyword")
+                surplus.append(kw)
+                continue
             values[kw.arg] = kw.value
+        if a.kwarg is not None:
+            # **kw  :=  {"k1": v1, ...} of the keywords no parameter takes
+            values[a.kwarg.arg] = ast.Dict(keys=[ast.Constant(value=k.arg) for k in surplus], values=[k.value for k in surplus])
         defaults = dict(zip(params[len(params) - len(a.defaults):], a.defaults)) if a.defaults else {}
         for p, d in zip(kwonly, a.kw_defaults):
             if d is not None:
                 defaults[p] = d
-        all_params = ([x.arg for x in a.args][:1] if kind in ("method", "class") else []) + params + kwonly
+        all_params = ([x.arg for x in a.args][:1] if kind in ("method", "class") else []) + params + kwonly + ([a.kwarg.arg] if a.kwarg is not None else [])
         for p in all_params:
             if p not in values:
                 if p not in defaults:
@@ -359,9 +386,11 @@ class Expander:
         return pre, new
 
     # -- resolution ------------------------------------------------------------------------------------------------
-    def target(self, caller, call, awaited):
+    def target(self, caller, call, awaited, generator=False):
         r = self.repo.resolve_call(caller, call)
         if r is None or not hasattr(r, "key") or r.key not in self.unknown:
+            return None
+        if is_simple_generator(r.node) != generator:
             return None
         if r.module is not caller.module:
             return None
@@ -414,6 +443,30 @@ class Expander:
                     if not self._always_returns(body):
                         res.append(ast.copy_location(ast.Return(value=None), st))
                     return self._block(res)
+            if isinstance(st, ast.Expr) and isinstance(st.value, ast.Call) and isinstance(st.value.func, ast.Attribute) and st.value.func.attr == "extend" and \
+                    len(st.value.args) == 1 and not st.value.keywords and isinstance(st.value.args[0], ast.Call) and _simple(st.value.func.value):
+                # <list>.extend(gen(...)) with gen an unlisted simple generator: its body, appending where it yields
+                gcall = st.value.args[0]
+                t = self.target(caller, gcall, False, generator=True)
+                if t:
+                    pre, body = self._body(t, gcall, self._names)
+                    recv = st.value.func.value
+
+                    class Y(ast.NodeTransformer):
+                        def visit_Expr(self, node):
+                            if isinstance(node.value, ast.Yield):
+                                return ast.copy_location(ast.Expr(value=ast.Call(func=ast.Attribute(value=clone(recv), attr="append", ctx=ast.Load()),
+                                                                                 args=[node.value.value], keywords=[])), node)
+                            return node
+
+                        def visit_FunctionDef(self, node):
+                            return node
+                        visit_AsyncFunctionDef = visit_Lambda = visit_FunctionDef
+                    body = [Y().visit(b) for b in body]
+                    new, _ = _eliminate(body, lambda v, at: [], True)
+                    self._grow(pre + new)
+                    self._note(t, "extend")
+                    return self._block(pre + new) or [ast.copy_location(ast.Pass(), st)]
             if isinstance(st, ast.Expr):
                 call, aw = self._call_of(st.value)
                 t = call is not None and self.target(caller, call, aw)
@@ -1196,16 +1249,31 @@ def rename_normal_form(repo, known, rebuild):
                     triples.append((hits, K, U))
             triples.sort(key=lambda t: (-t[0], t[1], t[2].key))
             usedK, usedU = set(), set()
+            pending = []
             for i, (hits, K, U) in enumerate(triples):
                 if K in usedK or U.key in usedU:
                     continue
                 rivals = [t for t in triples if t is not triples[i] and t[0] == hits and (t[1] == K or t[2].key == U.key) and t[1] not in usedK and t[2].key not in usedU]
                 if rivals:
-                    continue       # ambiguous
+                    pending.append((hits, K, U))
+                    continue       # ambiguous so far
                 usedK.add(K)
                 usedU.add(U.key)
                 votes.setdefault(U.name, {}).setdefault(short(K), 0)
                 votes[U.name][short(K)] += 1
+            # what the references cannot tell apart (several same-shaped helpers called from the same places) is told apart by position:
+            # with as many vanished functions as new ones left in this scope, the k-th vanished one (in the reference's definition order)
+            # is the k-th new one (in the current definition order) - provided that pairing is among the admissible ones
+            restK = sorted({K for _h, K, _U in pending if K not in usedK}, key=lambda k_: known["functions"].index(k_) if k_ in known["functions"] else 0)
+            restU = sorted({U.key: U for _h, _K, U in pending if U.key not in usedU}.values(), key=lambda u_: (u_.node.lineno, u_.node.col_offset))
+            ref_pos = known.get("def_order", {})
+            if restK and len(restK) == len(restU):
+                restK.sort(key=lambda k_: ref_pos.get(k_, 0))
+                admissible = {(K, U.key) for _h, K, U in pending}
+                if all((K, U.key) in admissible for K, U in zip(restK, restU)):
+                    for K, U in zip(restK, restU):
+                        votes.setdefault(U.name, {}).setdefault(short(K), 0)
+                        votes[U.name][short(K)] += 1
         for new, olds in votes.items():
             if len(olds) != 1:
                 continue
@@ -1263,8 +1331,6 @@ def rename_normal_form(repo, known, rebuild):
             """The old name is still in use for this class: anywhere in its module, or through a non-self receiver / a related class elsewhere."""
             for rel2, m2 in repo.modules.items():
                 for x in ast.walk(m2.tree):
-                    if isinstance(x, ast.Name) and x.id == attr and rel2 == rel:
-                        return True
                     if isinstance(x, ast.Attribute) and x.attr == attr:
                         if rel2 == rel:
                             return True
@@ -1535,9 +1601,17 @@ def inline_adjacent_temps(repo, rebuild):
 
 
 def _const_elems(e):
-    """Elements of a tuple / list display whose elements are all constants (or tuples of constants), else None."""
+    """Elements of a tuple / list display whose elements are constants or effect-free expressions without names that a loop body could
+    re-bind (attribute paths, arithmetic on them) - or tuples of such -, else None.  (Substituting such an element for the loop
+    variable at every use evaluates it more often but to the same value.)"""
+    def simple(x):
+        if isinstance(x, ast.Constant):
+            return True
+        if isinstance(x, ast.Starred):
+            return False
+        return _effect_free(x) and not any(isinstance(y, (ast.Subscript, ast.List, ast.Dict, ast.Set)) for y in ast.walk(x))
     if isinstance(e, (ast.Tuple, ast.List)) and len(e.elts) <= 32:
-        ok = all(isinstance(x, ast.Constant) or (isinstance(x, ast.Tuple) and all(isinstance(y, ast.Constant) for y in x.elts)) for x in e.elts)
+        ok = all(simple(x) or (isinstance(x, ast.Tuple) and all(simple(y) for y in x.elts)) for x in e.elts)
         return list(e.elts) if ok else None
     return None
 
@@ -1603,6 +1677,30 @@ class _FoldLiterals(ast.NodeTransformer):
                 isinstance(node.args[1].value, str) and node.args[1].value.isidentifier():
             self.count += 1
             return ast.copy_location(ast.Attribute(value=node.args[0], attr=node.args[1].value, ctx=ast.Load()), node)
+        if d in ("bytes", "str") and not node.args and not node.keywords:
+            self.count += 1
+            return ast.copy_location(ast.Constant(value=b"" if d == "bytes" else ""), node)
+        if isinstance(node.func, ast.Attribute) and node.func.attr == "join" and isinstance(node.func.value, ast.Constant) and node.func.value.value == b"" and \
+                len(node.args) == 1 and not node.keywords and isinstance(node.args[0], (ast.Tuple, ast.List)) and 2 <= len(node.args[0].elts) <= 16 and \
+                not any(isinstance(x, ast.Starred) for x in node.args[0].elts) and self.module.rel.startswith("schemes/"):
+            # b''.join((a, b, c))  ->  a + b + c        (byte strings; the structure classes concatenate their fields either way)
+            self.count += 1
+            e = node.args[0].elts[0]
+            for x in node.args[0].elts[1:]:
+                e = ast.BinOp(left=e, op=ast.Add(), right=x)
+            return ast.copy_location(e, node)
+        if any(k.arg is None and isinstance(k.value, ast.Dict) and k.value.keys and all(isinstance(kk, ast.Constant) and isinstance(kk.value, str) and kk.value.isidentifier()
+                                                                                         for kk in k.value.keys) for k in node.keywords):
+            # f(**{"a": x, "b": y})  ->  f(a=x, b=y)
+            new_kw = []
+            for k in node.keywords:
+                if k.arg is None and isinstance(k.value, ast.Dict) and k.value.keys and all(isinstance(kk, ast.Constant) and isinstance(kk.value, str) and kk.value.isidentifier() for kk in k.value.keys):
+                    new_kw += [ast.keyword(arg=kk.value, value=vv) for kk, vv in zip(k.value.keys, k.value.values)]
+                else:
+                    new_kw.append(k)
+            if len({k.arg for k in new_kw if k.arg}) == len([k for k in new_kw if k.arg]):
+                node.keywords = new_kw
+                self.count += 1
         if d in ("all", "any") and len(node.args) == 1 and not node.keywords:
             seq = node.args[0]
             vals = None
@@ -1663,6 +1761,84 @@ class _FoldLiterals(ast.NodeTransformer):
             return ast.copy_location(ast.Assign(targets=[ast.Attribute(value=c.args[0], attr=c.args[1].value, ctx=ast.Store())], value=c.args[2]), node)
         return node
 
+    # -- arithmetic spellings ----------------------------------------------------------------------------------------------
+    def visit_BinOp(self, node):
+        self.generic_visit(node)
+        # (a, b) + (c, d)  ->  (a, b, c, d)   (likewise lists)
+        if isinstance(node.op, ast.Add) and type(node.left) is type(node.right) and isinstance(node.left, (ast.Tuple, ast.List)) and \
+                not any(isinstance(x, ast.Starred) for x in node.left.elts + node.right.elts):
+            self.count += 1
+            return ast.copy_location(type(node.left)(elts=node.left.elts + node.right.elts, ctx=ast.Load()), node)
+        # only in the scheme modules, whose reference spelling is 2 ** k and math.ceil(a / b) on small sizes; the bit / byte toolkit
+        # is left alone - there the integer spellings are the reference and a float division is itself a finding (C18)
+        if not self.module.rel.startswith("schemes/"):
+            return node
+        # 1 << k  ->  2 ** k
+        if isinstance(node.op, ast.LShift) and isinstance(node.left, ast.Constant) and node.left.value == 1 and not isinstance(node.left.value, bool):
+            self.count += 1
+            return ast.copy_location(ast.BinOp(left=ast.Constant(value=2), op=ast.Pow(), right=node.right), node)
+        if isinstance(node.op, ast.FloorDiv):
+            num, den = node.left, node.right
+            ceil = None
+            # (a + b - 1) // b   /   (a + (b - 1)) // b   /   (b - 1 + a) // b      (ceil(a / b) for integers, b > 0)
+            terms_ = self._sum_terms(num)
+            if terms_ is not None and len(terms_) >= 2:
+                den_txt = unparse(den)
+                pos = [t for sg, t in terms_ if sg > 0]
+                consts = [sg * t.value for sg, t in terms_ if isinstance(t, ast.Constant) and isinstance(t.value, int) and not isinstance(t.value, bool)]
+                others = [(sg, t) for sg, t in terms_ if not (isinstance(t, ast.Constant) and isinstance(t.value, int) and not isinstance(t.value, bool))]
+                k = sum(consts)
+                if isinstance(den, ast.Constant) and isinstance(den.value, int) and den.value > 0 and others and k >= den.value - 1:
+                    # (E + k) // c with k >= c - 1   ==   ceil((E + k - (c - 1)) / c)
+                    rest = k - (den.value - 1)
+                    e = self._build_sum(others, rest)
+                    ceil = (e, den)
+                else:
+                    # symbolic divisor: one "+ den" and one "- 1" among the terms
+                    dens = [i for i, (sg, t) in enumerate(terms_) if sg > 0 and unparse(t) == den_txt]
+                    if dens and k == -1 and len(consts) == 1:
+                        rest_terms = [(sg, t) for i, (sg, t) in enumerate(terms_) if i != dens[0] and not (isinstance(t, ast.Constant) and isinstance(t.value, int))]
+                        if rest_terms:
+                            ceil = (self._build_sum(rest_terms, 0), den)
+            if ceil is not None:
+                self.count += 1
+                return ast.copy_location(ast.Call(func=ast.Attribute(value=ast.Name(id="math", ctx=ast.Load()), attr="ceil", ctx=ast.Load()),
+                                                  args=[ast.BinOp(left=ceil[0], op=ast.Div(), right=ceil[1])], keywords=[]), node)
+        return node
+
+    def visit_UnaryOp(self, node):
+        self.generic_visit(node)
+        if not self.module.rel.startswith("schemes/"):
+            return node
+        # -(-a // b)  ->  math.ceil(a / b)
+        if isinstance(node.op, ast.USub) and isinstance(node.operand, ast.BinOp) and isinstance(node.operand.op, ast.FloorDiv) and \
+                isinstance(node.operand.left, ast.UnaryOp) and isinstance(node.operand.left.op, ast.USub):
+            self.count += 1
+            return ast.copy_location(ast.Call(func=ast.Attribute(value=ast.Name(id="math", ctx=ast.Load()), attr="ceil", ctx=ast.Load()),
+                                              args=[ast.BinOp(left=node.operand.left.operand, op=ast.Div(), right=node.operand.right)], keywords=[]), node)
+        return node
+
+    @staticmethod
+    def _sum_terms(e, sign=1):
+        """[(sign, term)] of a chain of + / - (None if `e` is not one)."""
+        if isinstance(e, ast.BinOp) and isinstance(e.op, (ast.Add, ast.Sub)):
+            l = _FoldLiterals._sum_terms(e.left, sign)
+            r = _FoldLiterals._sum_terms(e.right, sign if isinstance(e.op, ast.Add) else -sign)
+            return (l or [(sign, e.left)]) + (r or [(sign if isinstance(e.op, ast.Add) else -sign, e.right)])
+        return None
+
+    @staticmethod
+    def _build_sum(terms_, const):
+        e = None
+        for sg, t in terms_:
+            if e is None:
+                e = t if sg > 0 else ast.UnaryOp(op=ast.USub(), operand=t)
+            else:
+                e = ast.BinOp(left=e, op=ast.Add() if sg > 0 else ast.Sub(), right=t)
+        if const:
+            e = ast.BinOp(left=e, op=ast.Add() if const > 0 else ast.Sub(), right=ast.Constant(value=abs(const)))
+        return e
+
     def visit_Return(self, node):
         self.generic_visit(node)
         if isinstance(node.value, ast.IfExp):
@@ -1703,6 +1879,11 @@ class _FoldLiterals(ast.NodeTransformer):
             inside = {id(x) for x in ast.walk(node)}
             if any(isinstance(x, ast.Name) and x.id in names and id(x) not in inside for x in ast.walk(fn)):
                 return node
+        used = {y.id for v in els for y in ast.walk(v) if isinstance(y, ast.Name)}
+        if used and any(isinstance(x, ast.Name) and x.id in used and isinstance(x.ctx, (ast.Store, ast.Del)) for b in node.body for x in ast.walk(b)):
+            return node
+        if used and any(isinstance(x, ast.Attribute) and isinstance(x.ctx, (ast.Store, ast.Del)) for b in node.body for x in ast.walk(b)):
+            return node
         out = []
         for v in els:
             b = _bind_target(node.target, v)
@@ -1714,6 +1895,75 @@ class _FoldLiterals(ast.NodeTransformer):
         return out
 
 
+def _merge_dict_building(tree):
+    """d = {...} directly followed by d.update({...}) / d[<const>] = v   ->   one display (later entries override earlier ones)."""
+    n = 0
+    for holder in ast.walk(tree):
+        for field in ("body", "orelse", "finalbody"):
+            lst = getattr(holder, field, None)
+            if not (isinstance(lst, list) and lst and isinstance(lst[0], ast.stmt)) or isinstance(holder, (ast.ClassDef, ast.Module)):
+                continue
+            i = 0
+            while i < len(lst) - 1:
+                st, nxt = lst[i], lst[i + 1]
+                if not (isinstance(st, ast.Assign) and len(st.targets) == 1 and isinstance(st.targets[0], ast.Name) and isinstance(st.value, ast.Dict)):
+                    i += 1
+                    continue
+                x = st.targets[0].id
+                add = None
+                if isinstance(nxt, ast.Expr) and isinstance(nxt.value, ast.Call) and isinstance(nxt.value.func, ast.Attribute) and nxt.value.func.attr == "update" and \
+                        isinstance(nxt.value.func.value, ast.Name) and nxt.value.func.value.id == x and len(nxt.value.args) == 1 and not nxt.value.keywords and \
+                        isinstance(nxt.value.args[0], ast.Dict):
+                    add = list(zip(nxt.value.args[0].keys, nxt.value.args[0].values))
+                elif isinstance(nxt, ast.Assign) and len(nxt.targets) == 1 and isinstance(nxt.targets[0], ast.Subscript) and isinstance(nxt.targets[0].value, ast.Name) and \
+                        nxt.targets[0].value.id == x and isinstance(nxt.targets[0].slice, ast.Constant):
+                    add = [(nxt.targets[0].slice, nxt.value)]
+                if add is None or any(isinstance(y, ast.Name) and y.id == x for _k, v in add for y in ast.walk(v)):
+                    i += 1
+                    continue
+                d = st.value
+                for k, v in add:
+                    if k is not None and isinstance(k, ast.Constant):
+                        for j, k0 in enumerate(d.keys):
+                            if isinstance(k0, ast.Constant) and k0.value == k.value and _effect_free(d.values[j]):
+                                del d.keys[j]
+                                del d.values[j]
+                                break
+                    d.keys.append(k)
+                    d.values.append(v)
+                del lst[i + 1]
+                n += 1
+    return n
+
+
+def _loops_to_comprehensions(tree):
+    """acc = b'' ; for x in IT: acc += E        ->   acc = b''.join([E for x in IT])
+    (E does not mention acc, the loop body is that single statement, no else).  Used in the scheme modules, whose reference spelling of a
+    block of ciphertexts is the joined comprehension."""
+    n = 0
+    for holder in ast.walk(tree):
+        for field in ("body", "orelse", "finalbody"):
+            lst = getattr(holder, field, None)
+            if not (isinstance(lst, list) and lst and isinstance(lst[0], ast.stmt)) or isinstance(holder, (ast.ClassDef, ast.Module)):
+                continue
+            i = 0
+            while i < len(lst) - 1:
+                st, lp = lst[i], lst[i + 1]
+                if isinstance(st, ast.Assign) and len(st.targets) == 1 and isinstance(st.targets[0], ast.Name) and isinstance(st.value, ast.Constant) and st.value.value == b"" and \
+                        isinstance(lp, ast.For) and not lp.orelse and len(lp.body) == 1 and isinstance(lp.body[0], ast.AugAssign) and isinstance(lp.body[0].op, ast.Add) and \
+                        isinstance(lp.body[0].target, ast.Name) and lp.body[0].target.id == st.targets[0].id:
+                    acc = st.targets[0].id
+                    e = lp.body[0].value
+                    if not any(isinstance(y, ast.Name) and y.id == acc for y in ast.walk(e)) and not any(isinstance(y, ast.Name) and y.id == acc for y in ast.walk(lp.iter)):
+                        comp = ast.ListComp(elt=e, generators=[ast.comprehension(target=lp.target, iter=lp.iter, ifs=[], is_async=0)])
+                        st.value = ast.Call(func=ast.Attribute(value=ast.Constant(value=b""), attr="join", ctx=ast.Load()), args=[comp], keywords=[])
+                        del lst[i + 1]
+                        n += 1
+                        continue
+                i += 1
+    return n
+
+
 def fold_literals(repo, rebuild):
     changed = set()
     for rel, m in repo.modules.items():
@@ -1722,8 +1972,11 @@ def fold_literals(repo, rebuild):
             set_parents(m.tree)
             tr = _FoldLiterals(m, repo)
             tr.visit(m.tree)
-            total += tr.count
-            if not tr.count:
+            nb = _merge_dict_building(m.tree)
+            if rel.startswith("schemes/"):
+                nb += _loops_to_comprehensions(m.tree)
+            total += tr.count + nb
+            if not tr.count and not nb:
                 break
         if total:
             ast.fix_missing_locations(m.tree)
@@ -1999,6 +2252,116 @@ def lower_dispatch_tables(repo, rebuild):
     return len(changed)
 
 
+# ---------------------------------------------------------------------------------------------------------------------
+# tuple assignments and record dicts
+
+
+def _lower_tuple_assigns(fnode):
+    """a, b = x, y  ->  a = x; b = y   (no target occurs in a value);      a, b = seq  ->  a = seq[0]; b = seq[1]   (seq a plain name)."""
+    n = 0
+    for holder in ast.walk(fnode):
+        for field in ("body", "orelse", "finalbody"):
+            lst = getattr(holder, field, None)
+            if not (isinstance(lst, list) and lst and isinstance(lst[0], ast.stmt)) or isinstance(holder, ast.ClassDef):
+                continue
+            i = 0
+            while i < len(lst):
+                st = lst[i]
+                if isinstance(st, ast.Assign) and len(st.targets) == 1 and isinstance(st.targets[0], (ast.Tuple, ast.List)) and \
+                        all(isinstance(t, ast.Name) for t in st.targets[0].elts) and len({t.id for t in st.targets[0].elts}) == len(st.targets[0].elts):
+                    tg = st.targets[0].elts
+                    names = {t.id for t in tg}
+                    v = st.value
+                    new = None
+                    if isinstance(v, (ast.Tuple, ast.List)) and len(v.elts) == len(tg) and not any(isinstance(x, ast.Starred) for x in v.elts) and \
+                            not any(isinstance(y, ast.Name) and y.id in names for x in v.elts for y in ast.walk(x)):
+                        new = [ast.copy_location(ast.Assign(targets=[ast.Name(id=t.id, ctx=ast.Store())], value=x), st) for t, x in zip(tg, v.elts)]
+                    elif isinstance(v, ast.Name) and v.id not in names:
+                        new = [ast.copy_location(ast.Assign(targets=[ast.Name(id=t.id, ctx=ast.Store())],
+                                                            value=ast.Subscript(value=ast.Name(id=v.id, ctx=ast.Load()), slice=ast.Constant(value=k), ctx=ast.Load())), st)
+                               for k, t in enumerate(tg)]
+                    if new is not None:
+                        lst[i:i + 1] = new
+                        i += len(new)
+                        n += 1
+                        continue
+                i += 1
+    return n
+
+
+def _scalarize_records(fnode):
+    """A local dict that is only ever used as R["<constant>"] (read or written) is a bundle of locals: R["k"] -> R__k."""
+    n = 0
+    cands = {}
+    uses = {}
+    for x in ast.walk(fnode):
+        if isinstance(x, ast.Assign) and len(x.targets) == 1 and isinstance(x.targets[0], ast.Name) and isinstance(x.value, ast.Dict) and \
+                all(isinstance(k, ast.Constant) and isinstance(k.value, str) and k.value.isidentifier() for k in x.value.keys):
+            cands.setdefault(x.targets[0].id, []).append(x)
+    if not cands:
+        return 0
+    set_parents(fnode)
+    for x in ast.walk(fnode):
+        if isinstance(x, ast.Name) and x.id in cands:
+            uses.setdefault(x.id, []).append(x)
+    for R, defs in cands.items():
+        if len(defs) != 1:
+            continue
+        ok = True
+        for u in uses.get(R, []):
+            p = getattr(u, "_parent", None)
+            if u is defs[0].targets[0]:
+                continue
+            if not (isinstance(p, ast.Subscript) and p.value is u and isinstance(p.slice, ast.Constant) and isinstance(p.slice.value, str) and p.slice.value.isidentifier()
+                    and isinstance(p.ctx, (ast.Load, ast.Store))):
+                ok = False
+        if not ok or len(uses.get(R, [])) < 2:
+            continue
+        existing = {y.id for y in ast.walk(fnode) if isinstance(y, ast.Name)} | {a.arg for a in ast.walk(fnode) if isinstance(a, ast.arg)}
+
+        def nm(k):
+            return "%s__%s" % (R, k)
+        if any(nm(k.value) in existing for k in defs[0].value.keys) or any(
+                nm(getattr(u, "_parent").slice.value) in existing for u in uses[R] if u is not defs[0].targets[0]):
+            continue
+
+        class T(ast.NodeTransformer):
+            def visit_Subscript(self, node):
+                self.generic_visit(node)
+                if isinstance(node.value, ast.Name) and node.value.id == R and isinstance(node.slice, ast.Constant):
+                    return ast.copy_location(ast.Name(id=nm(node.slice.value), ctx=node.ctx), node)
+                return node
+        d = defs[0]
+        init = [ast.copy_location(ast.Assign(targets=[ast.Name(id=nm(k.value), ctx=ast.Store())], value=v), d) for k, v in zip(d.value.keys, d.value.values)]
+        T().visit(fnode)
+        holder = getattr(d, "_parent", None)
+        for field in ("body", "orelse", "finalbody"):
+            lst = getattr(holder, field, None)
+            if isinstance(lst, list):
+                for i, y in enumerate(lst):
+                    if y is d:
+                        lst[i:i + 1] = init or ([ast.Pass()] if len(lst) == 1 else [])
+                        break
+        n += 1
+        set_parents(fnode)
+    return n
+
+
+def lower_tuples_and_records(repo, rebuild):
+    changed = set()
+    for rel, m in repo.modules.items():
+        n = 0
+        for f in [x for x in ast.walk(m.tree) if isinstance(x, _FUNC)]:
+            n += _lower_tuple_assigns(f)
+            n += _scalarize_records(f)
+        if n:
+            ast.fix_missing_locations(m.tree)
+            changed.add(rel)
+    if changed:
+        rebuild(repo, changed)
+    return len(changed)
+
+
 def normalize(repo, rebuild):
     """Expand unknown helpers/constants in `repo` (a raw Repo).  `rebuild(repo, rels)` re-indexes the changed modules.
 
@@ -2083,9 +2446,13 @@ def normalize(repo, rebuild):
             for rel in dropped:
                 ast.fix_missing_locations(repo.modules[rel].tree)
             rebuild(repo, dropped)
-    inline_attr_aliases(repo, rebuild)
     fold_literals(repo, rebuild)
+    lower_tuples_and_records(repo, rebuild)
+    inline_attr_aliases(repo, rebuild)
     repo.temps_inlined = inline_adjacent_temps(repo, rebuild)
+    if fold_literals(repo, rebuild):
+        lower_tuples_and_records(repo, rebuild)
+        repo.temps_inlined += inline_adjacent_temps(repo, rebuild)
     return notes
 
 
